@@ -2988,7 +2988,10 @@ class ChannelManager:
         try:
             await channel.connect()
         except BaseException as e:
-            connection_channels.pop(source_cid, None)
+            # If the channel is being disconnected, it stays registered until the
+            # peer's response has been received
+            if channel.state != ClassicChannel.State.WAIT_DISCONNECT:
+                connection_channels.pop(source_cid, None)
             raise e
 
         return channel
